@@ -90,6 +90,10 @@ def check_run(sc, run, part: Part = None):
                         f"{len(txs)} transmissions with retries={R} (script {sc.get('fullscript')})"))
         if len({_strip_tx(sc, e[4]) for e in txs}) > 1:
             out.append((f"C04/{tr}/retransmission-differs", "transmissions of one request are not identical"))
+        if rec["outcome"] not in ("ok", "RequestRejectedException", "RequestFailedException"):
+            out.append((f"C04/{tr}/ends-with-other-exception/{rec['outcome']}",
+                        f"request ended with {rec['outcome']} ({rec.get('msg', '')[:60]}) instead of a response, RequestRejectedException or "
+                        f"RequestFailedException (script {sc.get('fullscript')})"))
         # completion bound: one timeout after the last event of the final attempt
         last = rec["t0"]
         for e in txs + deliveries:
@@ -136,8 +140,7 @@ def check_run(sc, run, part: Part = None):
                 part.count("success")
             if rec["outcome"] == "RequestRejectedException":
                 part.count("rejected")
-            if rec["outcome"] not in ("ok", "RequestRejectedException", "RequestFailedException"):
-                part.count("other_exception_type(handed to C09)")
+
             if any(c[3] != "ok" for c in conns):
                 part.count("tcp_connect_error")
             for p in peers:
